@@ -36,6 +36,9 @@ type C01Req struct {
 	// Refused: the request is addressed to a host the proxy denies (403 from the proxy itself); whatever it carried,
 	// the requests behind it on the connection travel on as if it had not been there.
 	Refused bool `json:"refused,omitempty"`
+	// PauseMs: the client stops for this long in the middle of the body (a slow upload). The proxy used for such a case
+	// has a read-header timeout shorter than the pause: the limit is on the head, the body may take its time.
+	PauseMs int `json:"pause_ms,omitempty"`
 }
 
 type C01Case struct {
@@ -71,6 +74,8 @@ func originResponder(pc *PeerConn, r *RecordedReq) ([]byte, bool) {
 	return OKResponse("ok"), false
 }
 
+const c01RHT = 200 * time.Millisecond
+
 func getEnv() (*c01Env, error) {
 	envOnce.Do(func() {
 		e := &c01Env{ca: NewCA("verif harness CA"), proxies: map[string]*ProxyInst{}}
@@ -104,6 +109,10 @@ func getEnv() (*c01Env, error) {
 		mk("direct", ProxyOpts{DenyDomains: deny})
 		mk("upstream", ProxyOpts{Upstream: "http://" + e.upstream.Addr, DenyDomains: deny})
 		mk("mitm", ProxyOpts{MITM: true, DenyDomains: deny})
+		// the same three with a short read-header timeout, for cases with a pause inside a body
+		mk("direct-rht", ProxyOpts{DenyDomains: deny, ReadHeaderTimeout: c01RHT})
+		mk("upstream-rht", ProxyOpts{Upstream: "http://" + e.upstream.Addr, DenyDomains: deny, ReadHeaderTimeout: c01RHT})
+		mk("mitm-rht", ProxyOpts{MITM: true, DenyDomains: deny, ReadHeaderTimeout: c01RHT})
 		env = e
 	})
 	return env, envErr
@@ -240,6 +249,15 @@ func genC01(t *rapid.T) C01Case {
 		c.Reqs = append(c.Reqs, r)
 	}
 	c.Pipelined = rapid.Bool().Draw(t, "pipelined")
+	if rapid.IntRange(0, 39).Draw(t, "slowbody") == 7 {
+		for i := range c.Reqs {
+			if c.Reqs[i].BodyKind != "none" && c.Reqs[i].BodyLen >= 2 && !c.Reqs[i].Refused {
+				c.Reqs[i].PauseMs = 320
+				c.Pipelined = false
+				break
+			}
+		}
+	}
 	nc := rapid.IntRange(0, 4).Draw(t, "ncuts")
 	for i := 0; i < nc; i++ {
 		c.Cuts = append(c.Cuts, rapid.IntRange(1, 3000).Draw(t, "cut"))
@@ -359,6 +377,15 @@ func runC01once(e *c01Env, c C01Case) (fails []vstat.Failure) {
 	id := caseSeq.Add(1)
 	reqs := c.build(e, id)
 	px := e.proxies[c.Config]
+	slow := false
+	for _, r := range c.Reqs {
+		if r.PauseMs > 0 {
+			slow = true
+		}
+	}
+	if slow {
+		px = e.proxies[c.Config+"-rht"]
+	}
 	hop := map[string]*Peer{"direct": e.origin, "upstream": e.upstream, "mitm": e.torigin}[c.Config]
 	key := func(clause string) string { return "C01:" + c.Config + ":" + clause }
 
@@ -439,7 +466,18 @@ func runC01once(e *c01Env, c C01Case) (fails []vstat.Failure) {
 	} else {
 		for i, r := range reqs {
 			conn.SetWriteDeadline(time.Now().Add(20 * time.Second))
-			if err := WriteSegments(conn, Segments(r.raw, c.Cuts)); err != nil {
+			var err error
+			if r.spec.PauseMs > 0 {
+				// head and half of the body, a pause longer than the read-header timeout, the rest
+				k := len(r.raw) - len(r.body)/2
+				if _, err = conn.Write(r.raw[:k]); err == nil {
+					time.Sleep(time.Duration(r.spec.PauseMs) * time.Millisecond)
+					_, err = conn.Write(r.raw[k:])
+				}
+			} else {
+				err = WriteSegments(conn, Segments(r.raw, c.Cuts))
+			}
+			if err != nil {
 				if r.spec.Refused {
 					// the proxy may refuse on the head alone and stop reading: the history ends here
 					st.Class("refused-before-the-body-was-sent")
@@ -676,6 +714,9 @@ func classifyC01(c C01Case) (bool, string, []string) {
 	nt := c.Config != "direct" || len(c.Reqs) >= 2
 	var shape []string
 	for i, r := range c.Reqs {
+		if r.PauseMs > 0 {
+			cls = append(cls, "pause-inside-body")
+		}
 		if r.Refused {
 			cls = append(cls, "refused-request")
 			if r.BodyKind != "none" && r.BodyLen > 0 && i < len(c.Reqs)-1 {
